@@ -224,7 +224,7 @@ func decodeStream(cfg hx.Config, ch *simrt.Chooser, b []byte, cuts []int, rec bo
 			w.feedHold(b[start:i])
 			start = i
 			if i < len(b) {
-				w.Tty.Faults["read_split"]++
+				w.Tty.Faults.Inc("read_split")
 			}
 		}
 	}
@@ -237,7 +237,7 @@ func decodeStream(cfg hx.Config, ch *simrt.Chooser, b []byte, cuts []int, rec bo
 	res.stall = w.stall
 	res.sig = w.S.Hash()
 	if rec {
-		hx.St.Record(w.S, w.Tty.Faults, func() interface{} {
+		hx.St.Record(w.S, w.Tty.Faults.Map(), func() interface{} {
 			return map[string]interface{}{"config": cfg.String(), "bytes": fmt.Sprintf("%q", b), "cuts": cuts, "events": res.evs}
 		})
 	}
